@@ -648,7 +648,13 @@ func GenStress(t *rapid.T) CaseS {
 type stressLayout struct {
 	static map[int]bool // static keys
 	pairs  [][2]int     // mover key pairs
+	span   []int        // per pair: number of static keys strictly between its two keys
+	// how often the exactly-one rule of a mover pair was decided by a scan (classes only)
+	judged, judgedWide atomic.Int64
 }
+
+// wideSpan: a mover pair with at least this many static keys between its two keys is "wide".
+const wideSpan = 256
 
 // checkStressScan judges one concurrent scan result by what must hold at every
 // instant: order, bound, limit, filter, provenance of every item, presence of
@@ -716,8 +722,12 @@ func checkStressScan(res *vkit.Result, lay *stressLayout, op WOp, got []Item, si
 		}
 	}
 	if op.Filter == filterAll || op.Filter == filterEvenKey {
-		for _, p := range lay.pairs {
+		for i, p := range lay.pairs {
 			if covered(p[0]) && covered(p[1]) && f(Item{K: p[0]}) {
+				lay.judged.Add(1)
+				if i < len(lay.span) && lay.span[i] >= wideSpan {
+					lay.judgedWide.Add(1)
+				}
 				if seen[p[0]] == seen[p[1]] {
 					return fail("mover keys %d and %d: exactly one of them exists at every instant (Update is one atomic step), the scan saw %s", p[0], p[1], map[bool]string{true: "both", false: "neither"}[seen[p[0]]])
 				}
@@ -764,6 +774,18 @@ func execStress(sitePrefix string) func(c CaseS) *vkit.Result {
 			tr.Insert(ms.cur)
 			lay.pairs = append(lay.pairs, [2]int{ms.a, ms.b})
 			movers = append(movers, ms)
+		}
+		for _, p := range lay.pairs {
+			between := 0
+			for k := range lay.static {
+				if (k > p[0]) != (k > p[1]) {
+					between++
+				}
+			}
+			lay.span = append(lay.span, between)
+		}
+		if len(lay.static) >= wideSpan {
+			res.Class("256+-static-keys")
 		}
 		var (
 			wg, rg       sync.WaitGroup
@@ -937,6 +959,12 @@ func execStress(sitePrefix string) func(c CaseS) *vkit.Result {
 		}
 		if len(movers) > 0 {
 			res.Class("has-movers")
+		}
+		if lay.judged.Load() > 0 {
+			res.Class("scan-judged-a-mover-pair")
+		}
+		if lay.judgedWide.Load() > 0 {
+			res.Class("scan-judged-a-mover-pair-256+-static-keys-apart")
 		}
 		if h, _ := tr.VerifInner().VerifHeight(); h >= 3 {
 			res.Class("ends-with-height>=3")
